@@ -86,21 +86,22 @@ def _case(draw, tier, names):
 def apply_edit(data, how, pos, newrow, layout_ok=True):
     """Edit the table `data` (a list of row lists) the way a user edits a list: rows are added, removed or REPLACED by new
     lists (never mutated in place: a cache may legitimately hold on to row objects).  Returns a label or None."""
+    width = len(data[0])
+    fitted = (list(newrow) * (width // max(1, len(newrow)) + 1))[:width]   # a new row has the table's current width
     if how == "append":
-        data.append(list(newrow))
+        data.append(fitted)
         return "row-edit"
     if how == "delete" and len(data) > 1:
         del data[1 + pos % (len(data) - 1)]
         return "row-edit"
     if how == "replace" and len(data) > 1:
-        data[1 + pos % (len(data) - 1)] = list(newrow)
+        data[1 + pos % (len(data) - 1)] = fitted
         return "row-edit"
     if how == "truncate" and len(data) > 1:
         del data[1:]
         return "truncate"
     if not layout_ok:
         return None
-    width = len(data[0])
     if how == "swapcols" and width >= 2:
         a, b = pos % width, (pos // 2 + 1) % width
         if a != b and all(len(r) > max(a, b) for r in data):
